@@ -44,10 +44,53 @@ pub fn run_cli(release: bool, opts: &[&str], content: &[u8], tag: &str) -> Resul
     Ok(CliOut { code: out.status.code(), signal: out.status.signal(), stdout: out.stdout, stderr: out.stderr })
 }
 
-pub const CLEAR: &str = "\x1b[2J\x1b[H\x1b[3J";
+/// remove ANSI control sequences (ESC [ ... final byte): how the screen is cleared is not part of
+/// any property, so the parsing below must not depend on the exact sequence
+pub fn strip_ansi(s: &str) -> String {
+    let mut out = String::with_capacity(s.len());
+    let mut it = s.chars().peekable();
+    while let Some(c) = it.next() {
+        if c == '\u{1b}' && it.peek() == Some(&'[') {
+            it.next();
+            for d in it.by_ref() {
+                if ('@'..='~').contains(&d) {
+                    break;
+                }
+            }
+        } else {
+            out.push(c);
+        }
+    }
+    out
+}
 
-/// split captured stdout into refresh blocks (text after each clear-screen sequence)
+fn is_header_line(l: &str) -> bool {
+    let t = l.trim_start();
+    t.starts_with("ICAO") && t.split_whitespace().nth(1) == Some("RG")
+}
+
+/// Split captured stdout into blocks: [text before the legend, legend, refresh 1, refresh 2, ...].
+/// A refresh starts at a table header line ("ICAO RG ..."); ANSI sequences inside refreshes are kept
+/// (only a leading clear-screen prefix of the header line is dropped).
 pub fn blocks(out: &[u8]) -> Vec<String> {
     let s = String::from_utf8_lossy(out);
-    s.split(CLEAR).map(|x| x.to_string()).collect()
+    let mut blocks: Vec<String> = vec![String::new(), String::new()];
+    let mut in_refresh = false;
+    for raw in s.split_inclusive('\n') {
+        let stripped = strip_ansi(raw);
+        if is_header_line(&stripped) {
+            blocks.push(String::new());
+            in_refresh = true;
+            // the header line itself, without the clear-screen prefix
+            blocks.last_mut().unwrap().push_str(&stripped);
+            continue;
+        }
+        if in_refresh {
+            // a trailing clear-screen sequence that belongs to the next refresh may sit at the start of a line
+            blocks.last_mut().unwrap().push_str(raw);
+        } else {
+            blocks[1].push_str(&stripped);
+        }
+    }
+    blocks
 }
